@@ -814,6 +814,14 @@ class Engine:
             return binop("Sub", v.args[2], v.args[1], "usize")
         if op == "vec_new":
             return Int(0)
+        if op == "owf":
+            return v.args[2]       # Strobe output operations fill the whole buffer
+        if op == "copied":
+            return v.args[1]
+        if op == "as_array":
+            return Int(v.args[1])
+        if op == "bytes_of":
+            return Int(v.args[1])
         if op == "bytes_of":
             n = v.args[1]
             if n is not None:
